@@ -200,6 +200,21 @@ func runPair(r *vh.Rng, directed int) *pairScen {
 		cfg = pairCfg{auto: true, sid: 2}
 	case 7:
 		cfg = pairCfg{allow: true}
+	case 8: // patient mode: prolongation rounds while the user has not acted, then the approval
+		cfg = pairCfg{allow: true, approves: true}
+	case 9:
+		cfg = pairCfg{allow: true, approves: true, cid: 1, sid: 1}
+	case 10:
+		cfg = pairCfg{allow: true, cancels: true}
+	}
+	// patient mode (PairPatient.v): while the user has not acted and nothing is under way, the
+	// pending server's timer may expire - a prolongation request is sent, the client answers -
+	// before the approval or cancel comes
+	rounds := 0
+	if directed >= 8 && directed <= 10 {
+		rounds = 1 + directed%2
+	} else if directed > 10 && r.Chance(35) {
+		rounds = 1 + r.Intn(3)
 	}
 	sc := &pairScen{cfg: cfg}
 	trusted := false
@@ -327,6 +342,14 @@ func runPair(r *vh.Rng, directed int) *pairScen {
 			en = append(en, "LDeliverSC", "LDeliverSC")
 		}
 		userCan := !userDone && (cfg.approves || cfg.cancels)
+		if userCan && rounds > 0 && len(en) == 0 {
+			ss := sv.conn.VerifSnapshot()
+			if ss.State == 11 && ss.TimerRunning && (cfg.allow || trusted) && (directed <= 10 || r.Chance(70)) {
+				rounds--
+				exec("LTimeoutS")
+				continue
+			}
+		}
 		if userCan {
 			pend := sv.conn.VerifSnapshot().State == 11
 			if (early && pend) || (!early && (pend || r.Chance(10))) {
